@@ -104,6 +104,7 @@ func TestVerifFeed(t *testing.T) {
 		Sessions [][]verifOp `json:"sessions"`
 		Random   int         `json:"random"`
 		MaxLen   int         `json:"maxlen"`
+		Long     []int       `json:"long"`
 	}
 	verifkit.In(&in)
 	out := verifkit.Out()
@@ -131,5 +132,33 @@ func TestVerifFeed(t *testing.T) {
 		}
 		sid++
 		verifSession(out, sid, ops)
+	}
+	/* long threads and timelines: n chunks appended, walked to the last item and back, as many prepended, walked to
+	   the first item, back to the centre */
+	for _, n := range in.Long {
+		for _, first := range []verifOp{{Op: "create", K: 1}, {Op: "createlist", K: 3}} {
+			ops := []verifOp{first}
+			total := 0
+			for i := 0; i < n; i++ {
+				k := 1 + i%3
+				ops = append(ops, verifOp{Op: "append", K: k})
+				total += k
+			}
+			rep := func(op string, k int) {
+				for i := 0; i < k; i++ {
+					ops = append(ops, verifOp{Op: op})
+				}
+			}
+			rep("down", total+5)
+			rep("up", total+8)
+			for i := 0; i < n; i++ {
+				ops = append(ops, verifOp{Op: "prepend", K: 1 + (i+1)%3})
+			}
+			rep("up", total+5)
+			rep("center", 1)
+			rep("down", 3)
+			sid++
+			verifSession(out, sid, ops)
+		}
 	}
 }
